@@ -128,7 +128,9 @@ def show(n, depth=0):
     if k == "Int":
         return str(n["v"])
     if k == "Flt":
-        return str(n["v"])
+        # a floating literal is not an integer literal (1/x against 1.0/x): always with a decimal point or exponent
+        v = str(n["v"])
+        return v if any(c in v for c in ".eEn") else v + ".0"
     if k == "Str":
         return '"%s"' % n["v"]
     if k == "Chr":
@@ -227,6 +229,12 @@ def show(n, depth=0):
     # fallback
     cs = list(children(n))
     return "%s(%s)" % (k, ", ".join(show(c) for c in cs))
+
+
+def plain_num(text):
+    """renderings with floating literals that have an integral value written as integers (0.0 -> 0): for comparisons in
+    which the literal is converted to a floating type anyway"""
+    return re.sub(r"(?<![\w.])(\d+)\.0(?![\w.])", r"\1", text)
 
 
 def meth(n):
